@@ -13,7 +13,7 @@ SHARDS = {"quick": 16, "thorough": 16}
 WATCHDOG = {"quick": 1800, "thorough": 10800}
 CASES = {"quick": 70, "thorough": 900}
 FLOORS = {
-    "quick": {"distinct_nontrivial": 3500, "scorer_pairs": 1500, "detector_pairs": 2200,
+    "quick": {"scorer_pairs_single_row": 392, "scorer_pairs_regular_unequal_parts": 495, "distinct_nontrivial": 3500, "scorer_pairs": 1500, "detector_pairs": 2200,
               "pairs[permute]": 820, "pairs[shift]": 370, "pairs[scale]": 200, "pairs[reverse]": 2300,
               "discrete_outputs_compared": 350},
     "thorough": {"distinct_nontrivial": 5000, "scorer_pairs": 15000, "detector_pairs": 8000},
